@@ -362,6 +362,10 @@ RULE = ("2-4 tasks, one store operation each from {set(path), set_state (whole-s
         "every interleaving of starts and gate releases on the real InMemoryStateStore and SqliteStateStore (DB file); the final "
         "state must equal the result of some permutation of the operations applied atomically to a plain dict; non-trivial = at "
         "least one deviation from the default order")
+from vmc.tables import _ROUND7 as _R7  # noqa: E402
+
+RULE += _R7["C20"]
+
 
 
 def run(tier: str, seed: int) -> Any:
